@@ -541,3 +541,31 @@ Check core_run_eq_plan_run :
                       Glue.default_buffer_capacity s
                       (LitePlanCore.core_plan_on (LitePlanSim.fastb cfg M) cfg (SearcherCore.m_is_match M) s)
                       (length s) (0, [])))).
+
+(* the source tie (DESIGN §4.2): `DecisionsLib.should_binary_quit` is regenerated on every run from the current text
+   of ReadByLine::should_binary_quit (crates/searcher/src/searcher/glue.rs).  Model/BinaryDetect.v inlines this
+   conjunction in rbl_fill (no model definition of its own), so the tie is to the hand-written copy of
+   Model/LibExpected.v — hence `_eq_expected`, not `_eq_model`. *)
+From RG Require Gen.DecisionsLib Model.LibExpected Proofs.GenLibProofs.
+Theorem should_binary_quit_generated_eq_expected : forall binary_offset_is_some quit_byte_is_some : bool,
+  DecisionsLib.should_binary_quit binary_offset_is_some quit_byte_is_some
+  = LibExpected.should_binary_quit_expected binary_offset_is_some quit_byte_is_some.
+Proof. exact GenLibProofs.should_binary_quit_eq. Qed.
+Print Assumptions should_binary_quit_generated_eq_expected.
+
+(* the same tie for Core::detect_binary (crates/searcher/src/searcher/core.rs): the VALUE it returns (true = stop
+   searching this buffer), regenerated from the source as a function of binary_byte_offset.is_some(),
+   quit_byte().is_some(), config.binary.0, range.start(), `buf[*range].find_byte(b)` and the Ok value of
+   `self.binary_data(offset)`, equals the first component of the model's detect_binary — the switch between
+   "already detected", None / Quit / Convert, "the sink refused" and "quit byte". *)
+From RG Require Model.LineBufferBin.
+Theorem detect_binary_result_generated_eq_model :
+  forall (St : Type) (sink : St -> BinaryDetect.event -> St * bool) (mode : LineBufferBin.bin_mode) (buf : bytes)
+         (s e : nat) (cb : option nat) (w : BinaryDetect.world),
+    DecisionsLib.detect_binary_result
+      (match cb with Some _ => true | None => false end) (LineBufferBin.is_quit mode) mode s
+      (fun b => memchr b (sub buf s e))
+      (fun off => snd (BinaryDetect.emit sink w (BinaryDetect.EBinary off)))
+    = fst (fst (BinaryDetect.detect_binary sink mode buf s e cb w)).
+Proof. exact GenLibProofs.detect_binary_result_eq. Qed.
+Print Assumptions detect_binary_result_generated_eq_model.
